@@ -209,6 +209,14 @@ def run(tier, seed):
             if x.status == "refuted":
                 x.counterexample = bad
                 x.replay = {"reproduced": bad is not None, "search": "all triples from %d reachable states on 6 labels" % cases, "mismatch": bad}
+    # "whatever the storage order of the cell's vertices": whether a vertex is removed is decided from that vertex alone (filter, then the exact
+    # predicate on ITS five grid points) - the E2 contract on the body of the vertex loop of clip_by_plane, shared with C05
+    from . import clipwire
+    from .. import smt as _smt
+    o_cw, f_cw = clipwire.obligations("C18")
+    _smt.discharge_all(o_cw, tier)
+    results += [runner.from_smt(o) for o in o_cw]
+    slices = slices + f_cw
     pc, pbad = closed_polytope_probe(seed)
     for x in results:
         if "clip_by_plane_tail" in x.name and x.status == "refuted":
